@@ -162,8 +162,11 @@ def expr_code(e):
         return expr_code(e[1]) + ["BALANCE"]
     if k == "keccak1":  # keccak256(abi.encode(a)) using scratch memory 0x00
         return expr_code(e[1]) + ["PUSH0", "MSTORE", ("push", 32), "PUSH0", "SHA3"]
+    if k == "keccakp":  # keccak256(abi.encodePacked(address(a), uint256(b))): 52 bytes, packed-key mapping
+        # operands are evaluated first (they may use the scratch memory themselves)
+        return (expr_code(e[2]) + expr_code(e[1]) + [("push", 96), "SHL", "PUSH0", "MSTORE", ("push", 20), "MSTORE", ("push", 52), "PUSH0", "SHA3"])
     if k == "keccak2":  # keccak256(abi.encode(a, b))
-        return expr_code(e[1]) + ["PUSH0", "MSTORE"] + expr_code(e[2]) + [("push", 32), "MSTORE", ("push", 64), "PUSH0", "SHA3"]
+        return expr_code(e[2]) + expr_code(e[1]) + ["PUSH0", "MSTORE", ("push", 32), "MSTORE", ("push", 64), "PUSH0", "SHA3"]
     # operators: push operands in reverse so that the first operand ends on top
     out = []
     for sub in reversed(e[1:]):
